@@ -207,20 +207,102 @@ theorem harmless_outcomes_do_not_abort (c : Circ) (fuel : Nat) (s : St) (d : Nat
     `FSM._event` (only possible through the window `with self._enable_event` around the entry action
     or the start of a zero-delay timer) is parked – exactly one – and acknowledged with True -/
 theorem chained_request_is_parked (dlv : Dlv) (b : Blk) (d : Nat) (stk0 : List Frame) (s : St)
-    (et : EType) (ns : Nat) (ht : fsmTarget b (s.fstate d) et = .to ns) (ha : s.fsmActive d = true)
-    (hn : s.nextEv d = Option.none) :
-    fsmEvent dlv b d stk0 s et = ({ s with nextEv := upd s.nextEv d (some ns) }, .ret (.bool true)) := by
-  unfold fsmEvent
-  simp [ht, ha, hn]
+    (ns : Nat) (ha : s.fsmActive d = true) (hn : s.nextEv d = Option.none) :
+    fsmAccept dlv b d stk0 s ns = ({ s with nextEv := upd s.nextEv d (some ns) }, .ret (.bool true)) := by
+  unfold fsmAccept
+  simp [ha, hn]
 
 /-- … a second request in the same transition raises EdzedCircuitError ("Forbidden event
     multiplication") inside the handler, which stops the simulation (`exception_leaving_handler_aborts`) -/
 theorem second_chained_request_is_refused (dlv : Dlv) (b : Blk) (d : Nat) (stk0 : List Frame) (s : St)
-    (et : EType) (ns ns' : Nat) (ht : fsmTarget b (s.fstate d) et = .to ns) (ha : s.fsmActive d = true)
-    (hn : s.nextEv d = some ns') :
-    fsmEvent dlv b d stk0 s et = (s, .exc .circuitError) := by
+    (ns ns' : Nat) (ha : s.fsmActive d = true) (hn : s.nextEv d = some ns') :
+    fsmAccept dlv b d stk0 s ns = (s, .exc .circuitError) := by
+  unfold fsmAccept
+  simp [ha, hn]
+
+/-! ### FSM blocks: `cond_EVENT` callbacks (user code inside the handler) -/
+
+/-- an event with a transition is accepted (parked or executed: `fsmAccept`) exactly after its condition
+    returned a true value, in the state the callback left … -/
+theorem cond_true_accepts_event (dlv : Dlv) (b : Blk) (d : Nat) (stk0 : List Frame) (s s' : St)
+    (et : EType) (data : Data) (ns : Nat) (ht : fsmTarget b (s.fstate d) et = .to ns)
+    (hc : fsmCond dlv b d s et data = (s', .ret (.bool true))) :
+    fsmEvent dlv b d stk0 s et data = fsmAccept dlv b d stk0 s' ns := by
   unfold fsmEvent
-  simp [ht, ha, hn]
+  simp [ht, hc, Val.bool, Val.truthy, Atom.truthy]
+
+/-- … a condition returning false REJECTS the event: `_event` returns False, and nothing of the FSM has
+    changed beyond what the callback itself did – no transition, no parked request, `_fsm_event_active`
+    untouched; the block is unlocked by the `finally` of `event()` like after any other outcome
+    (`guard_balanced`, `cond_rejection_is_harmless`) -/
+theorem cond_false_rejects_event (dlv : Dlv) (b : Blk) (d : Nat) (stk0 : List Frame) (s s' : St)
+    (et : EType) (data : Data) (ns : Nat) (ht : fsmTarget b (s.fstate d) et = .to ns)
+    (hc : fsmCond dlv b d s et data = (s', .ret (.bool false))) :
+    fsmEvent dlv b d stk0 s et data = (s', .ret (.bool false)) := by
+  unfold fsmEvent
+  simp [ht, hc, Val.bool, Val.truthy, Atom.truthy]
+
+/-- … an exception of the callback (incl. the refusal of an event it sent) leaves the handler: it is
+    classified by `SBlock.event` (`exception_leaving_handler_aborts`) -/
+theorem cond_exception_leaves_handler (dlv : Dlv) (b : Blk) (d : Nat) (stk0 : List Frame) (s s' : St)
+    (et : EType) (data : Data) (ns : Nat) (x : Exc) (ht : fsmTarget b (s.fstate d) et = .to ns)
+    (hc : fsmCond dlv b d s et data = (s', .exc x)) :
+    fsmEvent dlv b d stk0 s et data = (s', .exc x) := by
+  unfold fsmEvent
+  simp [ht, hc]
+
+/-- the callback runs INSIDE the handler, before `_fsm_event_active` is consulted: flags, frames and
+    `_fsm_event_active` are the same before and after it, whatever it sends (so an event it sends that leads
+    back to this FSM meets the set guard and is refused: `recursion_is_refused_and_aborts`; it is not one
+    of the documented windows: `no_nested_handling` holds with the callback running in phase `handler`) -/
+theorem cond_callback_runs_with_guard_set (c : Circ) (fuel : Nat) (b : Blk) (d : Nat) (s : St) (et : EType)
+    (data : Data) :
+    (fsmCond (deliver c fuel) b d s et data).1.active = s.active ∧
+    (fsmCond (deliver c fuel) b d s et data).1.stack = s.stack ∧
+    (fsmCond (deliver c fuel) b d s et data).1.fsmActive = s.fsmActive :=
+  let f := fsmCond_frm (deliver_frm c fuel) b d s et data
+  ⟨f.active, f.stack, f.fsm⟩
+
+/-- conditions are consulted for named events of an initialised FSM only (not for Goto, not during the
+    initial transition) -/
+theorem cond_not_consulted (dlv : Dlv) (b : Blk) (d : Nat) (s : St) (et : EType) (data : Data)
+    (h : (∃ st, et = .goto st) ∨ (s.out d).isUndef = true) :
+    fsmCond dlv b d s et data = (s, .ret (.bool true)) := by
+  unfold fsmCond
+  rcases h with ⟨st, rfl⟩ | h
+  · rfl
+  · split <;> simp_all
+
+/-- a top-level event rejected by a condition without statements: the whole `event()` call returns False
+    and the state is as before – apart from the (ghost) enter/exit record of the handler: no block locked,
+    no abort, no transition, no timer touched -/
+theorem cond_rejection_is_harmless (c : Circ) (fuel : Nat) (s : St) (d : Nat) (b : Blk) (ev : String)
+    (data : Data) (ns : Nat) (cv : CondVal)
+    (hb : c.blocks[d]? = some b) (hk : b.kind = .fsm) (ha : s.active d = false) (hi : s.init d ≠ .pending)
+    (ho : (s.out d).isUndef = false) (ht : fsmTarget b (s.fstate d) (.name ev) = .to ns)
+    (hc : b.conds.find? (·.1 == ev) = some (ev, [], cv)) (hv : cv.eval data = false) :
+    deliver c (fuel + 1) s d (.name ev) data =
+      ({ s with trace := .exit d true :: .enter d (handlerDepth s.stack d + 1) (data.get? "value")
+                  (windowDepth s.stack d) :: s.trace }, .ret (.bool false)) := by
+  have hcond : ∀ s4 : St, s4.out = s.out → fsmCond (deliver c fuel) b d s4 (.name ev) data = (s4, .ret (.bool false)) := by
+    intro s4 h4
+    unfold fsmCond
+    simp [h4, ho, hc, runActs, andThen, hv]
+  unfold deliver
+  simp only [hb, EType.check, ha, Bool.false_eq_true, if_false, eventBody, EType.resolve, earlyInit, hi,
+    andThen, callHandler, hk, if_true, inHandler]
+  have hne : (EType.name ev = EType.none) = False := by simp
+  simp only [hne, if_false]
+  have hev := cond_false_rejects_event (deliver c fuel) b d s.stack
+    { s with active := upd s.active d true, stack := ⟨d, .handler⟩ :: s.stack,
+             trace := .enter d (handlerDepth s.stack d + 1) (data.get? "value") (windowDepth s.stack d) :: s.trace }
+    _ (.name ev) data ns ht (hcond _ rfl)
+  rw [hev]
+  simp only [classify]
+  congr 1
+  cases s
+  simp only [St.mk.injEq, and_true, true_and]
+  exact upd_restore _ _ ha
 
 /-- the window is closed again on every outcome of what runs inside it: flag and frame of the FSM
     are as before (the handler goes on with the guard set) -/
@@ -478,6 +560,35 @@ example : (rawSend exFsmLoop exFsmReady 0 (.name "e0") []).2 = .exc .circuitErro
     ∧ (rawSend exFsmLoop exFsmReady 0 (.name "e0") []).1.error = some .circuitError
     ∧ (rawSend exFsmLoop exFsmReady 0 (.name "e0") []).1.active 0 = false
     ∧ (rawSend exFsmLoop exFsmReady 0 (.name "e0") []).1.fsmActive 0 = false := by decide +kernel
+
+/-- cond callbacks: `cond_e0` sends `put` to the Input b1 whose output event leads back to the FSM: refused
+    (the FSM is locked while its condition runs), the simulation stopped, nothing locked afterwards;
+    with `cond_e0` = constant False the event is rejected and nothing at all happens -/
+def exCondLoop : Circ :=
+  ⟨[{ kind := .fsm, nStates := 2, trans := [("e0", Option.none, some 1), ("e1", Option.none, some 0)],
+      extra := [⟨1, .name "put", []⟩], conds := [("e0", [.send 0 (some (.int 1))], .const true)] },
+    { kind := .input, onOutput := [⟨0, .name "e1", []⟩] }]⟩
+
+def exCondFalse : Circ :=
+  ⟨[{ kind := .fsm, nStates := 2, trans := [("e0", Option.none, some 1)], conds := [("e0", [], .item "value")] }]⟩
+
+example : (rawSend exCondLoop exFsmReady 0 (.name "e0") []).2 = .exc .circuitError
+    ∧ (rawSend exCondLoop exFsmReady 0 (.name "e0") []).1.error = some .circuitError
+    ∧ (rawSend exCondLoop exFsmReady 0 (.name "e0") []).1.fstate 0 = some 0
+    ∧ (rawSend exCondLoop exFsmReady 0 (.name "e0") []).1.active 0 = false
+    ∧ (rawSend exCondLoop exFsmReady 0 (.name "e0") []).1.active 1 = false
+    ∧ (rawSend exCondFalse exFsmReady 0 (.name "e0") [("value", .int 0)]).2 = .ret (.bool false)
+    ∧ (rawSend exCondFalse exFsmReady 0 (.name "e0") [("value", .int 0)]).1.fstate 0 = some 0
+    ∧ (rawSend exCondFalse exFsmReady 0 (.name "e0") [("value", .int 0)]).1.error = Option.none
+    ∧ (rawSend exCondFalse exFsmReady 0 (.name "e0") [("value", .int 0)]).1.active 0 = false
+    ∧ (rawSend exCondFalse exFsmReady 0 (.name "e0") [("value", .int 3)]).2 = .ret (.bool true)
+    ∧ (rawSend exCondFalse exFsmReady 0 (.name "e0") [("value", .int 3)]).1.fstate 0 = some 1 := by
+  decide +kernel
+
+/-- the hypotheses of `cond_rejection_is_harmless` are satisfiable (the block of `exCondFalse`, value 0) -/
+example : (exCondFalse.blocks[0]?.map fun b => fsmTarget b (exFsmReady.fstate 0) (.name "e0")) = some (.to 1)
+    ∧ (CondVal.item "value").eval [("value", .int 0)] = false
+    ∧ (exFsmReady.out 0).isUndef = false := by decide +kernel
 
 /-- A -> Repeat -> A: Input b0 sends its output to the Repeat b1 whose destination is b0: the forward
     (from inside b1's handler, b0 still busy) is refused, the simulation stopped, nothing queued, nothing locked -/
